@@ -291,8 +291,23 @@ def r4(R):
                     return 'sum'
         return None
 
+    # the loop over the lines of the .dat file: the one that unpacks them
+    dat_loops = {id(l) for l in walk_local(f.node) if isinstance(l, ast.For)
+                 and any(isinstance(a, ast.Assign) and isinstance(
+                     a.targets[0], ast.Tuple) and len(
+                         a.targets[0].elts) == 4 and isinstance(
+                             a.value, ast.Call) and isinstance(
+                                 a.value.func, ast.Attribute) and
+                         a.value.func.attr in ('split', 'rsplit')
+                         for b_ in l.body for a in ast.walk(b_))}
+
+    def is_dat_loop(node):
+        return node.kind == 'for' and id(node.ast) in dat_loops
+
     def edge(node, st, lab, tgt):
         checked, quick, differs = st
+        if node.kind == 'for' and not is_dat_loop(node):
+            return (frozenset(), None, differs)   # another loop: no entry
         if node.kind == 'for' and lab == 'T':
             return (frozenset({'<in-iteration>'}), None, None)
         if node.kind == 'test' and lab in ('T', 'F'):
@@ -310,7 +325,7 @@ def r4(R):
 
     def at(node, st):
         checked, quick, differs = st
-        if differs and (node.kind == 'for' or node.id == g.exit_return):
+        if differs and (is_dat_loop(node) or node.id == g.exit_return):
             return Violation('a %s mismatch does not make verification '
                              'fail' % ('size' if differs == 'size'
                                        else 'checksum'))
@@ -325,7 +340,7 @@ def r4(R):
             return r
         checked, quick, differs = st
         # arriving at the loop head again / leaving: this file was verified?
-        if node.kind == 'for' and '<in-iteration>' in checked and \
+        if is_dat_loop(node) and '<in-iteration>' in checked and \
                 'size' not in checked and node.frame.parent is None:
             # back at the loop head having skipped this entry
             return Violation('an entry of the .dat file is passed without '
@@ -333,8 +348,8 @@ def r4(R):
                              'recorded one (for instance an empty '
                              'increment): a missing or altered file is not '
                              'reported')
-        if (node.kind == 'for' or node.id == g.exit_return) and \
-                quick is not None or (node.kind == 'for' and checked):
+        if (is_dat_loop(node) or node.id == g.exit_return) and \
+                quick is not None or (is_dat_loop(node) and checked):
             if 'size' not in checked and checked is not None and (
                     quick is not None):
                 return Violation('a file is passed without comparing its '
@@ -625,3 +640,55 @@ def r9(R):
             R.violation(v.node, v.message, g, v.path,
                         key='time stamp not checked against the repository')
     R.require(n >= 2, 'backup functions not found')
+
+
+# ----------------------------------------------------------------- C18.R10
+@rule('C18.R10', 'verification covers the files a recovery would use: every '
+      'file find_files() returns is held against what the .dat file '
+      'records (not only the first one, which names the .dat file)',
+      min_instances=1)
+def r10(R):
+    f = R.prog.func('ZODB.scripts.repozo.do_verify')
+    # the local that receives find_files()
+    found = set()
+    for s in walk_local(f.node):
+        if isinstance(s, ast.Assign) and isinstance(s.value, ast.Call) and \
+                dotted(s.value.func) and \
+                dotted(s.value.func)[-1] == 'find_files':
+            found |= {t.id for t in s.targets if isinstance(t, ast.Name)}
+    R.require(found, 'do_verify no longer asks find_files() what a recovery '
+              'would use')
+    # uses of it as a whole: iterated, or compared / intersected as a set --
+    # anything but the subscript [0] and a truth test
+    whole = 0
+    parents = {}
+    for p in ast.walk(f.node):
+        for c in ast.iter_child_nodes(p):
+            parents[id(c)] = p
+    for x in ast.walk(f.node):
+        if not (isinstance(x, ast.Name) and x.id in found and isinstance(
+                x.ctx, ast.Load)):
+            continue
+        p = parents.get(id(x))
+        if isinstance(p, ast.Subscript) and p.value is x:
+            continue                      # repofiles[0] (or a slice of it)
+        if isinstance(p, (ast.If, ast.While)) and p.test is x:
+            continue
+        if isinstance(p, ast.UnaryOp) and isinstance(p.op, ast.Not):
+            continue
+        if isinstance(p, ast.Call) and isinstance(p.func, ast.Name) and \
+                p.func.id in ('len', 'bool', 'log'):
+            continue
+        whole += 1
+    R.instance('repozo.do_verify', uses_of_all_files=whole)
+    # ... and what is recorded must be collected to hold them against
+    if whole == 0:
+        R.violation(
+            (f.module.relpath, f.qualname, 'files a recovery would use'),
+            'do_verify looks only at the first file find_files() returns '
+            '(to name the .dat file) and verifies what that .dat file '
+            'lists: when the newest full backup is missing, find_files() '
+            'walks back to an older one, whose .dat lists neither the '
+            'missing file nor the newer increments -- verification passes '
+            'and a recovery concatenates two different chains',
+            key='chain membership not verified')
